@@ -21,6 +21,10 @@ class Undecided(Exception):
     pass
 
 
+class ZeroDiv(Undecided):
+    """the expression divides by zero for the given values: the program raises ZeroDivisionError there"""
+
+
 def int_eval(expr, env):
     """Evaluate a small integer / boolean expression (constants, names in env by text, + -, comparisons, and/or/not) exactly.
     env maps normalised texts to ints.  Raises Undecided on anything else."""
@@ -36,6 +40,13 @@ def int_eval(expr, env):
     if isinstance(expr, ast.BinOp) and isinstance(expr.op, (ast.Add, ast.Sub)):
         a, b = int_eval(expr.left, env), int_eval(expr.right, env)
         return a + b if isinstance(expr.op, ast.Add) else a - b
+    if isinstance(expr, ast.BinOp) and isinstance(expr.op, (ast.Mult, ast.Mod, ast.FloorDiv)):
+        a, b = int_eval(expr.left, env), int_eval(expr.right, env)
+        if isinstance(expr.op, ast.Mult):
+            return a * b
+        if b == 0:
+            raise ZeroDiv('division by zero in %s' % t)
+        return a % b if isinstance(expr.op, ast.Mod) else a // b
     if isinstance(expr, ast.BoolOp):
         vals = [int_eval(v, env) for v in expr.values]
         return all(vals) if isinstance(expr.op, ast.And) else any(vals)
